@@ -34,6 +34,7 @@ func (P) Rule() string {
 		"prevote/precommit wait, commit) and injects a burst of messages into one correct node through the real reactor path: (a) arbitrary bytes (random, bit-flipped and truncated valid encodings), " +
 		"(b) well-typed messages of all ten kinds with every numeric field from {min,-1,0,1,cur-1,cur,cur+1,total-1,total,2^31,max} and optional components nil, some correctly signed with the attacker's validator key; " +
 		"monitors: the state machine never panics (receiveRoutine would end), round state unchanged by messages that carry no valid signature, no allocation above 64 MiB caused by one message; " +
+		"catch-up rounds (`rounds` ops): ONE fresh peer sends k in {1,2,3,10,200} votes (valid vote of the attacker's validator / signed by an outside key / unsigned / index outside the set) for k distinct rounds far above the node's, through Receive or handleMsg; the rounds that exist afterwards (HeightVoteSet.Prevotes(r) != nil for the rounds sent) and did not before must be at most 2; " +
 		"recover proposals (`recover` ops): with the height's start time shifted by the hook VerifShiftStartTime (0/11/13/600 min) proposals of type recover/normal/unknown for round cs.Round+{-1,0,1,2,5} and height cs.Height+{-1,0,1} that NO validator key signed (no signature, damaged signature, valid signature of an outside key) are delivered through Receive or handleMsg; round, step, validators, votes held, locks, proposal, recover flags must be what they were (known finding: the recover shape past the 12-minute limit); " +
 		"then the simulation must still commit. non-trivial = at least one injected message was forwarded by the reactor to the state machine; distinct = distinct (seed, phase, kind)"
 }
@@ -416,6 +417,8 @@ func (e *exec) Exec(op string) string {
 		return "ok"
 	case "recover":
 		return e.execRecover(toks)
+	case "rounds":
+		return e.execRounds(toks)
 	case "ba":
 		return e.execBA(toks)
 	case "ps":
@@ -469,6 +472,10 @@ func b2i(b bool) int {
 func (P) Monitor(c *hx.CaseRun) []hx.Failure {
 	var fs []hx.Failure
 	for i, op := range c.Ops {
+		if strings.HasPrefix(op, "rounds ") {
+			fs = append(fs, monitorRounds(op, c.Impl[i])...)
+			continue
+		}
 		if strings.HasPrefix(op, "recover ") {
 			fs = append(fs, monitorRecover(op, c.Impl[i])...)
 			continue
@@ -527,6 +534,9 @@ func (P) Generate(g *hx.Gen) {
 	}
 	if only == "" || only == "recover" {
 		genRecover(g)
+	}
+	if only == "" || only == "rounds" {
+		genRounds(g)
 	}
 	if only != "" && only != "fuzz" {
 		return
